@@ -213,6 +213,12 @@ def iterRangeShape(self, start, end, step=1, tick=True):
 
     for c in range(start, end, step):
         p = self.getPayload(c)
+
+        # Keep the current point up to date (as getPayloadRef does for
+        # iterRangeShapeRef), so traces of inner ranks name this coordinate
+        if is_collecting and tick:
+            Metrics.addUse(rank, c, c, type_=None)
+
         yield CoordPayload(c, p)
 
         if is_collecting and tick:
